@@ -247,6 +247,8 @@ def replay(prop, fam, path):
         mine = [b for b in res["bad"] if b["v"]["p"] == prop and not C.match_known(prop, b["v"], known)]
         for b in mine:
             print("  reproduced: %s (%s) at step %d" % (b["v"]["f"], b["v"]["d"], b["i"]))
+        for dv in res.get("div", [])[:10]:
+            print("  DIVERGENCE step=%s %s: %s" % (dv.get("i"), dv["v"]["f"], dv["v"]["d"]))
         if mine:
             print("VIOLATION property=%s replay=%s" % (prop, path))
             return 1
